@@ -735,6 +735,21 @@ async fn run(_tier: Tier) {
     // ---- secondary: real interpreter + updater
     let mut interpreter = XfrResponseInterpreter::new();
     let mut updater: ZoneUpdater = ZoneUpdater::new(secondary.clone()).await.expect("updater");
+    // Now and then another update of the same zone asks for the write handle
+    // while the transfer holds it (polled once: it has to wait), and goes
+    // ahead when the transfer is done.
+    let mut queued: Option<Pin<Box<dyn Future<Output = Result<ZoneUpdater<StoredName>, domain::zonetree::update::Error>>>>> = None;
+    if sim::chance("second_updater_queued", 1, 4) {
+        let mut f: Pin<Box<dyn Future<Output = _>>> = Box::pin(ZoneUpdater::<StoredName>::new(secondary.clone()));
+        let waker = futures_util::task::noop_waker_ref();
+        let mut cx = std::task::Context::from_waker(waker);
+        if f.as_mut().poll(&mut cx).is_ready() {
+            sim::violation(P, "atomicity", "second-updater-got-the-handle-during-a-transfer".to_string(), "a second ZoneUpdater obtained the zone's write handle while the transfer's updater holds it".to_string());
+            return;
+        }
+        sim::stat("probe.second_updater_queued_behind_transfer");
+        queued = Some(f);
+    }
     let mut outcome: Result<bool, String> = Ok(false); // Ok(finished?)
     let mut batch_commits = 0u32; // BeginBatchDelete updates applied
     'msgs: for (mi, w) in delivered.iter().enumerate() {
@@ -802,6 +817,10 @@ async fn run(_tier: Tier) {
         }
     }
     drop(updater);
+    if outcome != Ok(true) {
+        // (It would be next in line for the write handle for ever.)
+        queued = None;
+    }
     let seen = walk_str(&walk_zone(secondary.read().as_ref()));
     ev!("outcome {:?}; reference {}", outcome, match &verdict {
         RefVerdict::Complete(_, trailing) => format!("Complete(trailing garbage: {})", trailing),
@@ -893,6 +912,50 @@ async fn run(_tier: Tier) {
                 // the version the secondary held plus that update.
                 let base = complete.iter().find(|c| walk_str(&content_as_walk(c)) == seen).cloned().unwrap();
                 followup(&secondary, &base, fault).await;
+            }
+            return;
+        }
+    }
+    // ---- the queued update goes ahead after a finished transfer: nothing of
+    // it shows before it finishes, and then exactly it is added.
+    if let (Some(f), Ok(true)) = (queued, &outcome) {
+        let mut up = match f.await {
+            Ok(u) => u,
+            Err(e) => {
+                sim::violation(P, "atomicity", "queued-updater-failed".to_string(), format!("{}", e));
+                return;
+            }
+        };
+        let rec = RecSpec {
+            owner: format!("queued.{}", APEX),
+            rtype: Rtype::TXT,
+            ttl: 60,
+            rdata: "\"queued\"".to_string(),
+        };
+        up.apply(ZoneUpdate::AddRecord(rec.record())).await.expect("apply");
+        let mid = walk_str(&walk_zone(secondary.read().as_ref()));
+        if mid != seen {
+            let extra: Vec<_> = mid.iter().filter(|x| !seen.contains(x)).collect();
+            let missing: Vec<_> = seen.iter().filter(|x| !mid.contains(x)).collect();
+            sim::violation(P, "atomicity", "reader-sees-partial-version/queued-update".to_string(), format!("an update that waited for the transfer to finish is visible to readers before it finished: unexpected {:?}; missing {:?}", extra, missing));
+            return;
+        }
+        if sim::chance("queued.abandon", 1, 3) {
+            drop(up);
+            let after = walk_str(&walk_zone(secondary.read().as_ref()));
+            if after != seen {
+                sim::violation(P, "atomicity", "abandoned-queued-update-changed-the-zone".to_string(), format!("the zone held {} rrsets after the transfer and {} after a later update was abandoned", seen.len(), after.len()));
+            }
+        } else {
+            let cur = seen.iter().find(|x| x.1 == Rtype::SOA).and_then(|x| x.3.first().and_then(|rd| rd.split_whitespace().nth(2).and_then(|v| v.parse::<u32>().ok()))).unwrap_or(0);
+            let soa = soa_spec(cur.wrapping_add(1000));
+            up.apply(ZoneUpdate::Finished(soa.record())).await.expect("finish");
+            drop(up);
+            let after = walk_str(&walk_zone(secondary.read().as_ref()));
+            let has = after.iter().any(|x| x.0 == rec.owner && x.1 == Rtype::TXT);
+            let others_same = after.iter().filter(|x| x.0 != rec.owner && x.1 != Rtype::SOA).eq(seen.iter().filter(|x| x.1 != Rtype::SOA));
+            if !has || !others_same {
+                sim::violation(P, "atomicity", "queued-update-result-wrong".to_string(), format!("after the queued update finished the zone holds {} rrsets (its record present: {}); the transfer had left {}", after.len(), has, seen.len()));
             }
         }
     }
